@@ -17,6 +17,7 @@
    Stdlib style; no proofs about particular automata here (see Lib/Bisim.v). *)
 From Coq Require Import String.
 From V Require Import Lib.Base.
+(* end of imports *)
 Local Open Scope N_scope.
 
 Inductive agency := AgClient | AgServer | AgNone.
